@@ -30,7 +30,10 @@ CLAIMS = {
                   "position, every truth assignment of if-chains with full and empty branches, loop bodies mutating the iterated "
                   "container, pairs kept past their iteration.",
              ref="§6 C07", technique="Lean 4 theorems on the evaluator model (jump contexts, loops as targets, call boundary) + exhaustive jump-nesting correspondence + plan-interpreter oracle"),
- "C11": dict(text="Lean theorems on the sequence primitives of the model (take/drop algebra of slicing and range assignment); exhaustive "
+ "C11": dict(text="Lean theorems on the sequence primitives of the model (take/drop algebra of slicing and range assignment) and end to end "
+                  "through the evaluator: `eval_index_list/str` (an index outside [0, len) is the documented error, never wrapped or "
+                  "clamped), `eval_slice` (fresh cell, exact domain, defaults), `slice_concat_law`, `concat_index_law`, "
+                  "`assign_then_index`, `range_assign_program`, `range_assign_open_end`; exhaustive "
                   "run-level correspondence over all lists/strings of length ≤4/≤5 × all indices/bounds in [-2,len+2] incl. omitted × read / "
                   "element assign / range assign; Python slicing with explicit domains is the model-free oracle.",
              ref="§6 C11", technique="Lean 4 theorems on the model's sequence primitives + exhaustive index-grid correspondence + Python oracle"),
@@ -91,7 +94,9 @@ CLAIMS.update({
              ref="§6 C04", technique="Lean 4 frame theorems on scope primitives and call factoring + exhaustive scope-program correspondence + renaming metamorphism"),
  "C05": dict(text="Lean frame theorems: alias sites keep the address, updates change exactly one cell, builders allocate fresh cells that "
                   "share their elements, `x += ys` rebinds, scalars are not heap cells; G2 (heap only grows, cells keep their kind, function "
-                  "cells never change) for the whole evaluator. Tie + Python reference with object identity, breadth-first over distinct heap "
+                  "cells never change) for the whole evaluator; end to end through `evalStmts`: `alias_mutation_visible` (after `b := a` an update "
+                  "through `b` is read through `a`, `a === b`, nothing else changes), `copy_mutation_invisible` for the four builders, "
+                  "`scalar_copy_independent`, `argument_alias` / `argument_rebind_local`, `opassign_rebinds_not_mutates`. Tie + Python reference with object identity, breadth-first over distinct heap "
                   "shapes of alias/copy/mutate/observe histories.",
              ref="§6 C05", technique="Lean 4 frame/freshness theorems + heap-shape-exhaustive history correspondence + Python identity oracle"),
  "C06": dict(text="Lean theorems: `arith` is exact on Int ∩ i64 or reports IntOverflow (iff), division/remainder law and signs, comparisons "
